@@ -50,8 +50,8 @@ CHECKS = {
             'text': 'Real MIR of Include::render_to and Render::render_to (plain and for-as forms): the partial is rendered with exactly StackFrame(caller, args) resp. GlobalFrame(SandboxedStackFrame(caller, args [+forloop, item])), the caller writer, truthful forloop, interrupts of a rendered partial stay in the sandbox registers and are reset per iteration, name / name.liquid lookup order, errors (never Ok, never panic) for non-string names, unevaluable arguments and missing partials.'},
     'C12': {'engine': 'E2-mirsym', 'technique': T_MIR, 'note': N_MIR + '; the wrapped view is an abstract object answering each method with a distinct token',
             'text': 'Facets: (1) real MIR of every ValueView method of the forwarding impls (&T, Option<T>, ValueCow Borrowed/Owned): exactly one call of the same method on the wrapped view with the same arguments, result returned unchanged; None answers like Value::Nil; (2) real MIR of ScalarSerializer/ValueSerializer::serialize_{i8..u64}: the same integer for ALL values of each type or an error when it exceeds i64. serde round-trips, JSON/YAML and derive-vs-serde equivalence are outside (generic visitor code over third-party crates).'},
-    'C17': {'engine': 'E1-kani', 'technique': T_KANI, 'note': N_KANI,
-            'text': 'Facet: Kani proves that DateTime equality and ordering (through ScalarCow) are chronological for two instants within +-100000 s of a base date, each displayed in any whole-hour offset -12..+14. strftime directive semantics and parse/print round-trips are not covered yet (see DESIGN.md).'},
+    'C17': {'engine': 'E2-mirsym', 'technique': T_MIR + '; Kani/CBMC for the ordering harness', 'note': N_MIR + '; the timestamp is an abstract object whose accessors return symbolic values in their documented ranges (fields independent: an over-approximation; counterexamples are confirmed on real timestamps natively); arithmetic-heavy VCs are refuted by cvc5 with its integer encoding when z3 gives up',
+            'text': 'Real MIR of strftime() on formats % + solver-chosen flags (-_0^#) + optional symbolic width + each of the 47 known directives: the output (digits are expressions of the field values) equals a declarative reference of the directive (default widths and padding, -, _, 0, ^, #, explicit width, 12-hour clock, names, %L/%N leading digits, %z family, composites as their expansion); unknown directives (any Unicode character) are echoed, formats ending inside a directive are errors, nothing panics. DateTime::fmt chooses the sub-second format iff nanosecond != 0. Kani: equality and ordering of date-times through ScalarCow are chronological for instants within +-100000 s in any whole-hour offset -12..+14. Quick tier leaves %s, %c and explicit widths on year directives to the thorough tier. Not covered: the time crate itself (calendar arithmetic, parsing), the date filter argument handling, E/O modifiers.'},
     'C13': {'engine': 'E2-mirsym', 'technique': T_MIR, 'note': N_MIR + '; strings are lists of symbolic code points (byte lengths derived from utf8_len); one grapheme per code point (no combining marks)',
             'text': 'Real MIR of 19 string filters (slice, truncate, strip, lstrip, rstrip, strip_newlines, upcase, downcase, capitalize, append, prepend, replace, replace_first, remove, remove_first, newline_to_br, first, last, size) on strings of 0..3 (quick) / 0..4 (thorough) symbolic Unicode characters with symbolic arguments, each compared with an independent symbolic reference of its documented function for every value, and FilterChain::evaluate over 0..4 abstract filters (left-to-right composition, first error wins). Not covered: split, join, truncatewords, default, multi-character case expansions, combining marks. One known finding (truncate decides by byte length) is recorded: the repository suite pins that behaviour.'},
     'C16': {'engine': 'E2-mirsym', 'technique': T_MIR, 'note': N_MIR + '; strings are lists of symbolic code points, byte offsets are made path-concrete by forking every character into its UTF-8 length class; the percent-encoding and regex crates (outside the repository) are models validated against the native libraries on concrete strings',
